@@ -52,16 +52,16 @@ Theorem C06_subword_walk_total :
     table_dd_free (table0_of defs2) -> dd_free e ->
     resolution_order defs2 = Ok ord ->
     let table := resolve_in_order ord (table0_of defs2) in
-    spaces table (spaces_fuel table e) e [] false = Ok tt \/
-    exists err, spaces table (spaces_fuel table e) e [] false = Err err.
+    spaces table (spaces_fuel table e) e [] false false = Ok tt \/
+    exists err, spaces table (spaces_fuel table e) e [] false false = Err err.
 Proof. exact spaces_after_search_total. Qed.
 Check C06_subword_walk_total :
   forall defs2 ord e,
     table_dd_free (table0_of defs2) -> dd_free e ->
     resolution_order defs2 = Ok ord ->
     let table := resolve_in_order ord (table0_of defs2) in
-    spaces table (spaces_fuel table e) e [] false = Ok tt \/
-    exists err, spaces table (spaces_fuel table e) e [] false = Err err.
+    spaces table (spaces_fuel table e) e [] false false = Ok tt \/
+    exists err, spaces table (spaces_fuel table e) e [] false false = Err err.
 Print Assumptions C06_subword_walk_total.
 
 (** Non-vacuity: a chain of definitions as deep as there are definitions is accepted; a cycle
@@ -80,7 +80,7 @@ Definition ex_cycle : grammar :=
 Example ex_C06_inhabited :
   is_ok (from_grammar builtins ex_chain Bash) = true
   /\ (exists spans, from_grammar builtins ex_cycle Zsh = Err (NonterminalDefinitionsCycle spans))
-  /\ (exists s, spaces [] 5 (DistDescr (Terminal "c" None 0 ex_sp) "d" ex_sp) [] false = Panic s)
-  /\ spaces [("A", NontermRef "A" 0 ex_sp)] 5 (NontermRef "A" 0 ex_sp) [] false = OutOfFuel.
+  /\ (exists s, spaces [] 5 (DistDescr (Terminal "c" None 0 ex_sp) "d" ex_sp) [] false false = Panic s)
+  /\ spaces [("A", NontermRef "A" 0 ex_sp)] 5 (NontermRef "A" 0 ex_sp) [] false false = OutOfFuel.
 Proof. vm_compute. repeat split; try reflexivity; eexists; reflexivity. Qed.
 Print Assumptions ex_C06_inhabited.
